@@ -326,3 +326,8 @@ def extra(cases, outs, model):
         k = c["op"] + "/" + c["f"]
         ops[k] = ops.get(k, 0) + 1
     return {"operations": ops}
+
+
+def corrupt(model):
+    """interval bounds are encoded [sign, mantissa, exponent] x 2: shift every exponent by 3 (value x 8)"""
+    return [x + 3 if i % 3 == 2 else x for i, x in enumerate(model)]
